@@ -4,6 +4,7 @@ import numpy as np
 from hypothesis import strategies as st
 
 from vpm.core import Prop
+from vpm.labels import enc
 from vpm.gen.pomdp import pomdp_specs, belief_weights
 from vpm.build import build_pomdp
 from vpm.ref.pomdp import RefPOMDP
@@ -16,7 +17,7 @@ RULE = ("POMDP specs (2-4 states, 1-3 actions, 1-3 observations, integer-weight 
         "positive components and some observation with predictive probability strictly between 0 and 1; distinct by "
         "spec hash."
         ' Also: raw specs whose absorbing states have successors outside the state list (belief reward only); caller-supplied agent states (support only, reversed order); extreme beliefs matched with entrywise relative tolerance.'
-        ' Declared (unsorted) observation lists.')
+        ' Declared (unsorted) observation lists. Observation alphabets of 257-600 symbols.')
 ASSUMPTIONS = ["float results are compared with exact rationals at 1e-12", "beliefs are restricted to msdm's state list "
                "(reachable states)"]
 TOL = 1e-12
@@ -55,6 +56,39 @@ def cases(draw, tier="quick"):
             b[s] = draw(st.sampled_from([1, 2, 7, 3, 11, 13]))
     seq = draw(st.lists(st.tuples(st.integers(0, spec["m"] - 1), st.integers(0, spec["k"] - 1)), min_size=0, max_size=5))
     return {"pomdp": spec, "belief": b, "seq": [list(x) for x in seq]}
+
+
+def _widen_observations(args):
+    """replace the observation kernel of a small POMDP spec by one over a wide alphabet (257-600 observations, every one
+    emitted somewhere), expanded from a drawn seed; the stored / replayed spec is the expanded JSON"""
+    import random
+    spec, k, oscheme, seed, declared = args
+    r = random.Random(seed)
+    n, m = spec["n"], spec["m"]
+    rows = [(a, ns) for a in range(m) for ns in range(n)]
+    obs = [[[] for _ in range(n)] for _ in range(m)]
+    owner = {o: r.choice(rows) for o in range(k)}          # every observation is emitted by at least one (a, ns)
+    for (a, ns) in rows:
+        mine = {o for o, rw in owner.items() if rw == (a, ns)}
+        mine |= set(r.sample(range(k), r.choice([1, 3, 40])))
+        obs[a][ns] = [[o, r.choice([1, 1, 2, 3, 4])] for o in sorted(mine)]
+    spec["k"], spec["obs"] = k, obs
+    spec["olabels"] = [enc(o if oscheme == "int" else (5 * o - 2 if oscheme == "int_gap" else f"o{o}")) for o in range(k)]
+    spec.pop("explicit_observations", None)
+    if declared:
+        perm = list(range(k))
+        r.shuffle(perm)
+        spec["explicit_observations"] = perm
+    return spec
+
+
+@st.composite
+def wide_cases(draw, tier="quick"):
+    """observation alphabets beyond one byte / two bytes' worth of indices"""
+    base = draw(pomdp_specs(min_states=2, max_states=3, max_actions=2, max_obs=1, absorbing_kinds=("n", "n", "n", "abs")))
+    spec = _widen_observations((base, draw(st.sampled_from([257, 260, 300, 513, 600])), draw(st.sampled_from(["int", "str", "int_gap"])),
+                                draw(st.integers(0, 2 ** 40)), draw(st.integers(0, 3)) == 0))
+    return {"pomdp": spec, "belief": draw(belief_weights(spec["n"])), "seq": []}
 
 
 def _mask_belief(ref, weights):
@@ -304,6 +338,8 @@ def prop_track(case, ctx):
 PROPS = [
     Prop("filter", lambda tier: filter_cases(tier), prop_filter, quick=2500, thorough=150000,
          doc="state_estimator / predictive_observation (dict and vec) and observation_matrix vs exact Bayes"),
+    Prop("filter_wide", lambda tier: wide_cases(tier), prop_filter, quick=30, thorough=1500,
+         doc="the same with 257-600 distinct observations (observation indices beyond one byte)"),
     Prop("beliefmdp", lambda tier: cases(tier), prop_beliefmdp, quick=1500, thorough=90000,
          doc="BeliefMDP transitions, reward, absorbing test, initial belief"),
     Prop("beliefmdp_reward_raw", lambda tier: raw_reward_cases(tier), prop_raw_reward, quick=600, thorough=36000,
